@@ -1,6 +1,8 @@
 # (crate, features, profile, hook) built by setup so that the first quick check is fast
 BUILDS = [
     ("ds", (), "release", False),
+    ("ds", ("unsafe",), "release", False),
+    ("dc", (), "release", False),
     ("win", (), "release", False),
     ("win", ("unsafe",), "release", False),
     ("win", ("unsafe",), "dev", False),
